@@ -438,6 +438,23 @@ func runC13(ctx *Ctx) error {
 		dl.take()
 		fails, reads := sc.run(r)
 		drops := dl.take()
+		if len(fails) > 0 && drops == 0 && c13Timing(fails) {
+			// a scenario that fails for a reason that depends on the scheduler is run again (twice):
+			// a defect of the code fails again, an unlucky schedule on a loaded machine does not
+			again := 0
+			for k := 0; k < 2; k++ {
+				f2, _ := sc.run(NewRng(ctx.Seed + int64(i)*131 + int64(k)))
+				drops += dl.take()
+				if len(f2) > 0 {
+					again++
+					fails = f2
+				}
+			}
+			if again == 0 {
+				res.Count("scheduler-dependent-failure-not-reproduced")
+				fails, reads = nil, nil
+			}
+		}
 		for _, f := range fails {
 			site := f.Site
 			if drops > 0 && (f.Site == "read-stream" || f.Site == "scenario-timeout") {
@@ -1016,4 +1033,15 @@ func (sc c13Scenario) run(r Rng) (fails []Failure, reads *c13Reads) {
 		reads = nil
 	}
 	return fails, reads
+}
+
+// c13Timing: failures whose cause may be the schedule (time-outs, end of stream, missing frames),
+// as opposed to wrong bytes, wrong frames, panics
+func c13Timing(fails []Failure) bool {
+	for _, f := range fails {
+		if f.Site == "panic" || f.Site == "write" || f.Site == "dial" || f.Site == "register" {
+			return false
+		}
+	}
+	return true
 }
